@@ -26,6 +26,11 @@ theorem step_lim (L : Nat) (ins : Instr) (pc : Nat) (σ : St) :
       rw [if_neg (by simpa using h)]
       simp
   | mapKey k t tgt => left; cases k <;> cases t <;> rfl
+  | unmarshalP t f =>
+    left
+    cases t with
+    | ptr t' => cases t' <;> rfl
+    | _ => rfl
   | _ => exact Or.inl rfl
 
 theorem run_bounded (L : Nat) : ∀ (n : Nat) (P : Program) (pc : Nat) (σ : St) (out : Out),
@@ -89,6 +94,30 @@ theorem numOp_stack {T : GoType} {pc pc' : Nat} {s s' : St} (h : numOp o T pc s 
           · injection h with _ h; rw [← h]
   · exact (skipTo_stack h).trans rfl
 
+theorem skipKV_stack {s : St} {src : Bytes} {tgt pc' : Nat} {s' : St} (h : skipKV o s src tgt = .next pc' s') : s'.stack = s.stack := by
+  unfold skipKV at h
+  repeat' (split at h)
+  all_goals first
+    | (cases h; done)
+    | (injection h with _ h; subst h; rfl)
+
+theorem mapEntry_stack {s : St} {k : GoVal} {E : GoType} {r : Bytes} {pc pc' : Nat} {s' : St} (h : mapEntry s k E r pc = .next pc' s') :
+    s'.stack = s.stack := by
+  unfold mapEntry at h
+  repeat' (split at h)
+  all_goals first
+    | (cases h; done)
+    | (injection h with _ h; subst h; rfl)
+
+theorem intKeyOp_stack {b : Bool} {w : Nat} {E : GoType} {tgt pc pc' : Nat} {s s' : St} (h : intKeyOp o b w E tgt pc s = .next pc' s') :
+    s'.stack = s.stack := by
+  unfold intKeyOp at h
+  repeat' (split at h)
+  all_goals first
+    | (cases h; done)
+    | exact (skipKV_stack h).trans rfl
+    | exact mapEntry_stack h
+
 /-- no instruction takes a value stack of at most `L` slots beyond `L` -/
 theorem step_stack_le (L : Nat) (ins : Instr) (pc pc' : Nat) (σ σ' : St) (hs : σ.stack.length ≤ L)
     (h : step o (some L) ins pc σ = .next pc' σ') : σ'.stack.length ≤ L := by
@@ -132,12 +161,27 @@ theorem step_stack_le (L : Nat) (ins : Instr) (pc pc' : Nat) (σ σ' : St) (hs :
   | goSkip t => simp only [step] at h; rw [skipTo_stack h]; exact hs
   | objectNext => simp only [step] at h; rw [skipTo_stack h]; exact hs
   | recurse t => simp only [step] at h; cases h
-  | any | bin | emptyBytes | debug => cases h
-  | dyn t f | unmarshal t f | unmarshalP t f | unmarshalText t f | unmarshalTextP t f => cases h
+  | bin | emptyBytes | debug => cases h
+  | dyn t f | unmarshal t f | unmarshalText t f | unmarshalTextP t f => cases h
+  | unmarshalP t f =>
+    cases t with
+    | ptr t' =>
+      cases t' with
+      | lib n =>
+        simp only [step] at h
+        repeat' (split at h)
+        all_goals first
+          | (cases h; done)
+          | (injection h with _ h; rw [← h]; exact hs)
+      | _ => cases h
+    | _ => cases h
   | mapKey k t tgt =>
     cases k <;> try (cases h; done)
-    cases t <;> try (cases h; done)
-    simp only [step] at h
+    all_goals (cases t <;> try (cases h; done))
+    all_goals simp only [step] at h
+    all_goals first
+      | (rw [intKeyOp_stack h]; exact hs)
+      | skip
     repeat' (split at h)
     all_goals first
       | (cases h; done)
